@@ -335,7 +335,21 @@ def run_script(case):
     return traced(_run_script, case)
 
 
+def reset_filter_cache():
+    """FilterFactory's cache is process-wide: a case flagged fresh_cache starts as a fresh process would (needed to
+    see both creation orders of two filter specs in one run)"""
+    from ombott.router.filter_factory import FilterFactory
+    c = getattr(FilterFactory, '_filter_cache', None)
+    if isinstance(c, dict):
+        c.clear()
+    cc = getattr(FilterFactory.make_filter, 'cache_clear', None)
+    if cc is not None:
+        cc()
+
+
 def _run_script(case):
+    if case.get('fresh_cache'):
+        reset_filter_cache()
     ctx = Ctx(case)
     a = App(ctx)
     twin = case.get('twin')
@@ -442,6 +456,8 @@ def filter_table(ctx, path):
 
 
 def encode(case):
+    if case.get('fresh_cache'):
+        reset_filter_cache()
     ctx = Ctx(case)
     out = [len(case['cmds'])]
     for c in case['cmds']:
@@ -680,7 +696,9 @@ def wild_text(rng, name, kind, flavour=None, next_is_sep_or_end=True):
     raise ValueError(kind)
 
 
-RX_KINDS = ['rx:^[0-9]+$', 'rx:\\A[a-c]+', 'rx:\\b[a-c]+', 'rx:(?<=/)[0-9]+', 'rx:(?<!x)[a-c]+', 'rx:[a-c]+$',
+# the last two are spelled exactly like the masks of the built-in int / float filters: same regex text, but a `re`
+# wildcard hands the TEXT to the handler, int/float hand the converted number (a cache keyed by mask would mix them)
+RX_KINDS = ['rx:-?\\d+', 'rx:-?\\d+(\\.\\d+)?', 'rx:^[0-9]+$', 'rx:\\A[a-c]+', 'rx:\\b[a-c]+', 'rx:(?<=/)[0-9]+', 'rx:(?<!x)[a-c]+', 'rx:[a-c]+$',
             'rx:^[a-c]*', 'rx:(?<![0-9])[0-9]+']
 
 
@@ -764,7 +782,7 @@ SAMPLE = {
 }
 
 
-SAMPLE_RX = ['42', '7', 'abc', 'a', 'cab', 'xab', '', '4x', 'b7']
+SAMPLE_RX = ['42', '7', 'abc', 'a', 'cab', 'xab', '', '4x', 'b7', '007', '1.50', '-3']
 
 
 def instantiate(rng, segs):
